@@ -26,8 +26,18 @@ package main
 //	                                   subroutine of return type E), par (argument bound to a parameter of type E)
 
 import (
+	"crypto"
+	"crypto/ecdsa"
+	"crypto/elliptic"
+	"crypto/rand"
+	"crypto/rsa"
+	"crypto/sha256"
+	"crypto/x509"
+	"encoding/base64"
+	"encoding/pem"
 	"fmt"
 	"strings"
+	"sync"
 )
 
 // program in which the use sits at the end of a chain of un-annotated helpers
@@ -284,4 +294,56 @@ func tCoerceProgram(ctx, e, ty, form string) (string, error) {
 		return b.String(), nil
 	}
 	return "", fmt.Errorf("bad context %s", ctx)
+}
+
+// ---- key material for digest.rsa_verify / digest.ecdsa_verify: a key pair and a valid signature of the payload,
+// generated once per process (crypto/rsa, crypto/ecdsa; nothing is read from outside)
+const tDigestPayload = "verif-payload"
+
+var (
+	tDigestOnce        sync.Once
+	tRsaPem, tEcdsaPem string
+	tRsaSig, tEcdsaSig []byte
+)
+
+func tDigestInit() {
+	tDigestOnce.Do(func() {
+		sum := sha256.Sum256([]byte(tDigestPayload))
+		if k, err := rsa.GenerateKey(rand.Reader, 2048); err == nil {
+			if der, err := x509.MarshalPKIXPublicKey(&k.PublicKey); err == nil {
+				tRsaPem = string(pem.EncodeToMemory(&pem.Block{Type: "PUBLIC KEY", Bytes: der}))
+			}
+			tRsaSig, _ = rsa.SignPKCS1v15(rand.Reader, k, crypto.SHA256, sum[:])
+		}
+		if k, err := ecdsa.GenerateKey(elliptic.P256(), rand.Reader); err == nil {
+			if der, err := x509.MarshalPKIXPublicKey(&k.PublicKey); err == nil {
+				tEcdsaPem = string(pem.EncodeToMemory(&pem.Block{Type: "PUBLIC KEY", Bytes: der}))
+			}
+			tEcdsaSig, _ = ecdsa.SignASN1(rand.Reader, k, sum[:])
+		}
+	})
+}
+
+// STRING argument i of digest.<x>_verify in a signature of nargs arguments
+func tDigestArg(fn string, i, nargs int) string {
+	tDigestInit()
+	pemText, sig := tRsaPem, tRsaSig
+	// rsa: (hash, key, payload, digest [, base64 method]); ecdsa: (hash, key, payload, digest, format [, base64 method])
+	withMethod := nargs == 5
+	if fn == "digest.ecdsa_verify" {
+		pemText, sig = tEcdsaPem, tEcdsaSig
+		withMethod = nargs == 6
+	}
+	switch i {
+	case 1:
+		return "{\"" + pemText + "\"}"
+	case 2:
+		return "\"" + tDigestPayload + "\""
+	case 3:
+		if withMethod {
+			return "\"" + base64.StdEncoding.EncodeToString(sig) + "\"" // the cell passes the identifier `standard`
+		}
+		return "\"" + base64.RawURLEncoding.EncodeToString(sig) + "\"" // default url_nopad
+	}
+	return "\"s\""
 }
